@@ -103,8 +103,9 @@ func execSupervise(input string) string {
 	setScenario([]*nodeSpec{sp})
 	defer clearScenario([]*nodeSpec{sp})
 	cfg := config.Config{ApplicationName: "verif", MetricsPrefix: "verif", ShutdownTimeOut: 5,
-		Source: &node.SourceConfig{Name: "vsource", ID: fmt.Sprintf("r%d_src", run), Params: map[string]string{"k": "v", "run": strconv.FormatInt(run, 10)}},
-		Nodes:  []*node.Config{{ID: sp.id, Name: "vsync", Workers: 1, BufferSize: 2}}}
+		Source: &node.SourceConfig{Name: "vsource", ID: fmt.Sprintf("r%d_src", run), Params: map[string]string{"k": "v", "run": strconv.FormatInt(run, 10),
+			"librdkafka.sasl.password": "hunter2", "api_token": "t0k3n", "secretkey": "s3cr3t"}},
+		Nodes: []*node.Config{{ID: sp.id, Name: "vsync", Workers: 1, BufferSize: 2}}}
 	ex, err := executor.New(executor.WithConfig(cfg))
 	if err != nil {
 		return "harness-error " + err.Error()
